@@ -39,16 +39,16 @@ prop('C02', level='proof', technique=_T_V + '; ' + _T_K,
      level_text='Verus proves the absence of panics (index/slice bounds, unwrap, arithmetic overflow, division) and termination (decreases on every loop) for every decoder, iterator step and accessor under contract, for all inputs; Kani harnesses decide the TCP option / NDP option iterators and whole-packet entry points on bounded inputs with all built-in overflow and bounds checks on. Debug/Display formatting is not under contract (format machinery is outside both verifiers reach) and is stated as not covered.',
      level_note=_NOTE_V + '; ' + _NOTE_K)
 prop('C03', level='proof', technique=_T_V + '; ' + _T_K,
-     level_text='Each slicing decoder (Ethernet II, VLAN, MACsec, Linux SLL, ARP, IPv4, IPv6 + extension chain, AH, UDP, TCP, ICMPv4/6, and the SlicedPacket cursor from_ip) has a Verus postcondition taken from the wire format: accept set, header length, payload range and every accessor as a function of the input bytes; the IPv6 extension walk is proved equal to an RFC 8200 spec function with a loop invariant. The Ethernet/SLL/ether-type doors of the cursor have partial contracts and are cross-checked by bounded Kani harnesses.',
+     level_text='Each slicing decoder (Ethernet II, VLAN, MACsec, Linux SLL, ARP, IPv4, IPv6 + extension chain, AH, UDP, TCP, ICMPv4/6, and the SlicedPacket cursor from_ip) has a Verus postcondition taken from the wire format: accept set, header length, payload range and every accessor as a function of the input bytes; the IPv6 extension walk is proved equal to an RFC 8200 spec function with a loop invariant. At the Ethernet II / ether type doors the cursor is proved to dispatch ARP, IPv4 and IPv6 to exactly those decoders (offsets shifted by 14 behind Ethernet II); the stacking of VLAN / MACsec link extensions has a partial contract (frame, bounds, prefix) and is decided on bounded inputs by Kani against a reference walk written from 802.1Q / 802.1AE (h_link), the Linux SLL door likewise.',
      level_note=_NOTE_V + '; numeric offsets obtained from pointer differences are not decided by Verus (bounded Kani harnesses c07_offsets_*)')
 prop('C04', level='proof', technique=_T_V + '; ' + _T_K,
-     level_text='Struct decoding vs slicing at the IP door: PacketHeaders::from_ip_slice is proved (Verus, all inputs) to have the verdict of SlicedPacket::from_ip (same IPv4 boundary spec w4_strict, same transport rule tr_accepts), the same remaining payload range per transport kind and the same IP faults; underneath, IpHeaders::from_slice[_lax], from_ipv4_slice[_lax], from_ipv6_slice[_lax], Ipv4Header/Ipv6Header/UdpHeader::from_slice and read_transport are proved against the spec functions the slice decoders are proved against. For IPv6 the struct side is specified by the struct walk swalk (one header per kind: the documented difference). Assumed and only bounded-checked: Ipv6Extensions::from_slice[_lax] (p_ext_struct_walk*), TcpHeader::from_slice field copy. NOT under contract: PacketHeaders::from_ethernet_slice / from_ether_type and all of LaxPacketHeaders - for these only the bounded slim Kani comparisons from the IP door exist (c04_slim_*, c04_lax_*); the link-level doors of the struct family are not decided.',
+     level_text='Struct decoding vs slicing at the IP door: PacketHeaders::from_ip_slice is proved (Verus, all inputs) to have the verdict of SlicedPacket::from_ip (same IPv4 boundary spec w4_strict, same transport rule tr_accepts), the same remaining payload range per transport kind and the same IP faults; the lemma vx_c04_headers_vs_sliced_v4 states C04 for IPv4 over the two contracts. Underneath, IpHeaders::from_slice[_lax], from_ipv4_slice[_lax], from_ipv6_slice[_lax], Ipv4Header/Ipv6Header/UdpHeader::from_slice, read_transport and - since the second session - Ipv6Extensions::from_slice (struct walk, loop invariant against swalk) are proved against the spec functions the slice decoders are proved against; the wire-format contracts of the slice side (tagged C03) count as premises. For IPv6 the struct side is specified by the struct walk swalk (one header per kind: the documented difference). Assumed: Ipv6Extensions::from_slice_lax in the quick tier only (proved in the thorough tier), TcpHeader::from_slice field copy. NOT under Verus contract: PacketHeaders::from_ethernet_slice / from_ether_type and all of LaxPacketHeaders - bounded Kani comparisons from the IP door (c04_slim_*, c04_lax_*) and at the link level (h_link::c04_*, c06_link_*).',
      level_note=_NOTE_V + '; ' + _NOTE_K)
 prop('C05', level='proof', technique=_T_V + '; ' + _T_K,
-     level_text='The lax decoders (LaxIpv4Slice, LaxIpv6Slice, LaxIpSlice, Ipv6ExtensionsSlice::from_slice_lax, LaxMacsecSlice, UdpSlice::from_slice_lax) are proved by Verus against the same wire-format spec functions as the strict ones: where the strict spec succeeds the lax result is the same boundary with no stop error, otherwise the prefix in front of the fault and the fault as stop error; incomplete <=> the length field promised more than the slice holds, with the slice as length source. LaxSlicedPacket / LaxPacketHeaders vs their strict counterparts are decided on bounded inputs by Kani.',
+     level_text='The lax decoders (LaxIpv4Slice, LaxIpv6Slice, LaxIpSlice, Ipv6ExtensionsSlice::from_slice_lax, LaxMacsecSlice, UdpSlice::from_slice_lax) are proved by Verus against the same wire-format spec functions as the strict ones: where the strict spec succeeds the lax result is the same boundary with no stop error, otherwise the prefix in front of the fault and the fault as stop error; incomplete <=> the length field promised more than the slice holds, with the slice as length source. The lax whole-packet cursor (slice_transport, slice_arp, slice_ip, slice_ether_type, parse_from_ip, parse_from_ether_type) and LaxSlicedPacket::from_ip / from_ether_type are under contract (stop errors with layer, real offset, real lengths, truthful length source), and the lemma vx_c05_lax_extends_strict_v4 proves C05 for IPv4 at the IP door from the strict and the lax contract alone. LaxPacketHeaders and the link-extension stacking are decided on bounded inputs by Kani (c05_*, c04_lax_*, h_link).',
      level_note=_NOTE_V + '; ' + _NOTE_K)
 prop('C06', level='proof', technique=_T_V + '; ' + _T_K,
-     level_text='IpSlice / LaxIpSlice are proved (Verus) to return what the version-specific decoders return (both against the same spec function); every header type read from io::Read equals from_slice (Kani, complete over all byte strings of the header size for the fixed-size headers, bounded for the variable ones); the Ethernet / ether-type / IP doors are compared on bounded inputs (Kani).',
+     level_text='IpSlice / LaxIpSlice and IpHeaders::from_slice[_lax] are proved (Verus) to return what the version-specific decoders return (both against the same spec function); SlicedPacket::from_ether_type, SlicedPacket::from_ethernet and LaxSlicedPacket::from_ether_type are proved to dispatch ARP / IPv4 / IPv6 to exactly the decoders of the IP door (offsets shifted by 14 behind Ethernet II), with the lemmas vx_c06_ether_type_door_v4 and vx_c06_ethernet_door_v4 over the contracts; every header type read from io::Read equals from_slice (Kani, complete over all byte strings of the header size for the fixed-size headers, bounded for the variable ones); the link-extension part of the doors, the struct family at the link level and the skipping of extension headers in readers are compared on bounded inputs (Kani).',
      level_note=_NOTE_V + '; ' + _NOTE_K + '; the struct family (IpHeaders::from_slice*) is compared only on bounded inputs' + ' | ' + 'NOT proved, and violated on the unchanged tree, at recorded finding D6-lax: LaxIpSlice::from_slice on IPv4 inputs shorter than 20 bytes names a different first fault than LaxIpv4Slice (pinned by an existing unit test, so not repaired). The proof covers every other obligation; the evidence lists the excluded obligations by name (coverage.known_findings_excluded).')
 prop('C07', level='proof', technique=_T_V + '; ' + _T_K,
      level_text='Every length / content error of the decoders under contract is a Verus postcondition: layer, required_len, len exactly, len_source only a field that really limited the data, content errors carrying the offending value. Offsets that the whole-packet cursor derives from pointer differences cannot be expressed in Verus (slices have no addresses); they are decided by bounded Kani harnesses against an executable RFC reference (c07_offsets_*, p_*_boundary_*).',
@@ -57,13 +57,13 @@ prop('C08', level='proof', v=False, technique=_T_K,
      level_text='decode(encode(h)) == h and encode(decode(b)) == b as Kani contract harnesses on the real to_bytes/write/from_slice/read functions: complete (loop-free, every field value / every byte string of the header size) for the fixed-size headers and newtypes, bounded for the variable-size ones (IPv4 options, TCP options, AH ICV, IPv6 extension payloads, ARP addresses) with the bound stated per harness. No Verus contract: the encoders build arrays through ArrayVec/io::Write, which the Verus front end cannot take; CBMC is complete here because the domains are finite.',
      level_note=_NOTE_K)
 prop('C09', level='proof', technique=_T_V + '; ' + _T_K,
-     level_text='The checksum helpers (u32/u64 accumulators, Sum16BitWords) are proved by Verus, for slices of every length, to compute the RFC 1071 one\'s complement sum (spec functions oc16 / wsum, loop invariants, end-around-carry lemmas); on top of them UDP (IPv4/IPv6, all variants), TCP (TcpHeader, TcpHeaderSlice, TcpSlice; IPv4/IPv6) and the ICMPv6 validator are proved equal to the RFC 768 / 9293 / 4443 pseudo-header checksum in big-endian form incl. the never-zero rule. IPv4 header, ICMPv4, ICMPv6 message and IGMP checksums are decided by Kani harnesses with an independent RFC oracle (bounded payloads).',
+     level_text='The checksum helpers (u32/u64 accumulators, Sum16BitWords) are proved by Verus, for slices of every length, to compute the RFC 1071 one\'s complement sum (spec functions oc16 / wsum, loop invariants, end-around-carry lemmas); on top of them UDP (IPv4/IPv6, all variants), TCP (TcpHeader, TcpHeaderSlice, TcpSlice; IPv4/IPv6), the ICMPv6 validator and the IPv4 header checksum (Ipv4Header::calc_header_checksum, all headers and option lengths) are proved equal to the RFC 768 / 9293 / 4443 / 791 checksum in big-endian form incl. the never-zero rule. ICMPv4, ICMPv6 message and IGMP checksums are decided by Kani harnesses with an independent RFC oracle over every message variant (bounded payloads).',
      level_note=_NOTE_V + '; ' + _NOTE_K)
 prop('C10', level='model_checking', technique=_T_K + '; ' + _T_V,
      level_text='PacketBuilder: size() == bytes written, length fields, ether types / protocol numbers and checksums consistent, error configurations: decided by Kani on the real builder with bounded payloads and the checksum helpers replaced by their proved contract (ideal accumulator); the length limits by fabricated payloads around the field limits. The builder writes through io::Write / ArrayVec and is generic over writer and error type, outside the Verus front end, so bounded model checking is what decides the builder itself. The checksum functions the builder calls to fill in the IPv4 header, UDP and TCP checksums (Ipv4Header::calc_header_checksum, UdpHeader/TcpHeader::calc_checksum_ipv4/ipv6) are under Verus contract for all headers and all payload lengths (clause "all checksums verify").',
      level_note=_NOTE_K + '; ' + _NOTE_V)
 prop('C11', level='model_checking', v=False, technique=_T_K,
-     level_text='IP defragmentation: IpFragRange merge algebra complete (all u16 ranges); IpDefragBuf one- and two-step contracts from symbolic buffer states (section lists bounded), pool-level sequences bounded. The buffer uses Vec and sort, outside Verus\' reach here.',
+     level_text='IP defragmentation: IpFragRange merge algebra complete (all u16 ranges); IpDefragBuf one-, two- and three-step contracts from reachable buffer states (section lists bounded), arrival orders and duplicates on one cut. The buffer uses Vec and a retain closure, outside Verus reach here. THE POOL LEVEL (IpDefragPool::process_sliced_packet: fragment id extraction, stream separation, pass-through) IS DECIDED BY NO CHECK: std HashMap is out of CBMC reach, and the harnesses written against the list-based map of the verification hook run out of memory (DESIGN.md A.9).',
      level_note=_NOTE_K)
 prop('C12', level='proof', v=False, technique=_T_K,
      level_text='Ipv6Extensions / IpHeaders next_header, set_next_headers, header_len, write vs walk: Kani harnesses over every subset of the six extension headers and every next-header value (finite domain, loops bounded by the number of header kinds, unwinding assertions on): complete for the struct-level walk.',
@@ -78,7 +78,7 @@ prop('C15', level='proof', technique=_T_V + '; ' + _T_K,
      level_text='Bounded integer newtypes: try_new / TryFrom / From accept exactly the values that fit, preserve them and report truthful errors: Verus contracts with a type invariant value <= MAX, and loop-free Kani harnesses over the full input domain.',
      level_note=_NOTE_V + '; ' + _NOTE_K)
 prop('C16', level='proof', v=False, technique=_T_K,
-     level_text='I/O error handling: read/write of every header against readers/writers failing at every byte position, LimitedReader accounting, slice writers: Kani harnesses, complete over the position and content for the fixed-size headers, bounded for variable-size ones.',
+     level_text='I/O error handling: read/write of every header against readers/writers failing at every byte position, LimitedReader accounting, slice writers, skipping of IPv6 extension headers in a seekable reader: Kani harnesses, complete over the position and content for the fixed-size headers, bounded for variable-size ones.',
      level_note=_NOTE_K + '; LimitedReader offset overflow at usize::MAX is a stated precondition')
 prop('C17', level='proof', technique=_T_K + '; ' + _T_V,
      level_text='Typed control-message views (ICMPv4/6 type tables, NDP options, IGMP): Kani harnesses against tables written from RFC 792/4443/4861/3376, complete over all byte strings of the header sizes, NDP option walks bounded (option area <= 32..48 B); slice accessors and accept sets additionally under Verus contract.',
